@@ -218,7 +218,6 @@ func c02Wire(t *rm.Type, w []byte) *ev.Violation {
 func runC02(r *ev.Run, thorough bool) {
 	r.Rule = "encode direction: per type, values within <=k deviations incl. non-canonical text (cut/pad), library bytes == pinned-schema interpreter bytes; decode direction: reference wires of V1 plus every 1-byte substitution from {00,01,20,30,7F,80,FF}, library decode == interpreter decode (accept/reject, value, consumed); distinct = distinct (type,value) or (type,wire); non-trivial = differs from the all-zero base"
 	r.Assume("schema/pinned/*.json is the specification (reverse-engineered from the pinned commit, byte order per protocol)", "hostile count/length prefixes are delegated to C09/C10")
-	var wires int64
 	parTypes(r, bind.Types, func(t *rm.Type, l *ev.Local) {
 		k := 1
 		if thorough {
@@ -254,7 +253,6 @@ func runC02(r *ev.Run, thorough bool) {
 			return true
 		})
 		r.Add("decode_direction_wires", int64(n))
-		_ = wires
 	})
 	r.Sample("sse.Logon D .HeartBtInt=0x1: library bytes == schema bytes")
 	r.Set("bound", map[string]any{"k_deviations": k12(thorough), "wire_deviations": 1, "types": len(bind.Types)})
